@@ -979,6 +979,11 @@ class ExcelFormula:
                 level = 'warning' if ret_val in ERROR_CODES else 'info'
                 error_logger(level, excel_formula.python_code)
 
+            if cse_array_address and isinstance(ret_val, tuple):
+                # an empty element shows as 0, as it does in the member cells
+                ret_val = tuple(
+                    tuple(0 if v is None or v == EMPTY else v for v in row)
+                    if isinstance(row, tuple) else row for row in ret_val)
             return ret_val if ret_val not in (None, EMPTY) else 0
 
         return eval_func
